@@ -32,6 +32,15 @@ def main(fams):
         def built(mod):
             return os.path.exists(os.path.join(common.LEAN_DIR, '.lake', 'build', 'lib', 'lean', mod.replace('.', '/') + '.olean'))
         ok = [c for c in cands if c['module'] not in failed and built(c['module'])]
+        # a candidate that imports another candidate of this family (callee theorem used as a spec) is proved only
+        # if that one is: lake does not rebuild it when the import failed, and an old object file may still be there
+        while True:
+            okmods = {c['module'] for c in ok}
+            fam_mods = {c['module'] for c in cands}
+            keep = [c for c in ok if all(i in okmods or i not in fam_mods for i in c['imports'])]
+            if len(keep) == len(ok):
+                break
+            ok = keep
         bad = [c for c in cands if c not in ok]
         prop = gen_props.FAMILY_PROPERTY[fam]
         path = os.path.join(common.VERIF, 'obligations', prop + '.json')
